@@ -207,3 +207,54 @@ func H_C17_twins() {
 }
 
 var _ = register("H_C17_twins", H_C17_twins)
+
+
+// H_C17_pin: writes with the Pin option over a pin service that may fail, including a second replica of the same
+// identity and log repeating an append that is already stored (a byte-identical block). Whatever a failed pinned
+// write does, no block a successful operation returned earlier disappears and the store stays causally closed.
+func H_C17_pin() {
+	cfg := histParams()
+	cfg.realIO = true
+	cfg.R, cfg.W, cfg.K = 1, 1, 0
+	h := newHist(cfg)
+	dag := h.api.Dag().(*memDag)
+	pin := h.api.Pin().(*memPin)
+	L := h.logs[0]
+	n := 1 + vx.Choice("n", vx.Param("MAXN", 2))
+	var es []iface.IPFSLogEntry
+	for i := 0; i < n; i++ {
+		e, err := L.Append(ctx, []byte{'q', byte('0' + i)}, &ipfslog.AppendOptions{Pin: vx.Choice("pinned", 2) == 1})
+		vx.Assert("C17", err == nil, "append succeeds")
+		if err != nil {
+			return
+		}
+		es = append(es, e)
+	}
+	// the same log on a second device, k entries behind: it repeats the next append, pinned, and the pin may fail
+	k := 1 + vx.Choice("behind", n)
+	second := newLogOpt(h.api, h.ids[0], &ipfslog.LogOptions{ID: "X", IO: h.io(), SortFn: h.sortFn(), Entries: orderedMapOf(es[:n-k])})
+	if vx.Choice("pinFails", 2) == 1 {
+		pin.failAdds[pin.adds+1] = true
+		vx.Cover("pin-fault")
+	}
+	_, rerr := second.Append(ctx, es[n-k].GetPayload(), &ipfslog.AppendOptions{Pin: true})
+	if rerr != nil {
+		vx.Cover("pinned-append-failed")
+	}
+	for _, e := range es {
+		_, ok := dag.nodes[hstr(e)]
+		vx.Assert("C17", ok, "a block that an earlier successful append returned is still in the store after a failed pinned write")
+	}
+	closed := true
+	for _, nd := range dag.nodes {
+		for _, l := range nd.Links() {
+			if _, in := dag.nodes[l.Cid.String()]; !in {
+				closed = false
+			}
+		}
+	}
+	vx.Assert("C17", closed, "the store is causally closed after a failed pinned write")
+	vx.Cover("pin-checked")
+}
+
+var _ = register("H_C17_pin", H_C17_pin)
